@@ -19,7 +19,7 @@ def build_inputs(ctx, rnd):
     first = core.run_impl([c.op("S") for c in wf])
     faults = []
     for c, b in zip(wf, first):
-        if not b[-1].startswith("R done") or not ds.widths_ok(b, L):
+        if not ds.usable(ctx, c, b, L, ctx.stats.setdefault("inputs", {})):
             continue
         if c.tname != "Stream":
             faults += ds.size_faults(c, b, L, rnd, "quick")
